@@ -455,7 +455,7 @@ package query
 //@ axiom rank_monotone: forallv(s, []bool, forall(j, 0, MaxInt64, forall(k, 0, MaxInt64, j <= k ==> rankOf(s, j) <= rankOf(s, k))))
 
 //@ func (*View).filter$1
-//@   property C03
+//@   property C03 C12 C13
 //@   requires 0 <= rIdx && rIdx < len(results)
 //@   ensures [slot-set-iff-true] result == nil ==> results[rIdx] == (old(results[rIdx]) || value.ternOf(lastEval) == ternary.TRUE)
 //@   ensures [other-slots-untouched] forall(k, 0, len(results), k != rIdx ==> results[k] == old(results[k]))
@@ -571,7 +571,7 @@ package query
 //@   modifies *
 
 //@ func (*View).Fix$1
-//@   property C03 C05
+//@   property C03 C05 C12 C13
 //@   safety
 //@   requires view != nil && 0 <= index && index < len(view.RecordSet) && fieldLen == len(view.selectFields)
 //@   requires forall(q, 0, len(view.selectFields), 0 <= view.selectFields[q] && view.selectFields[q] < len(view.RecordSet[index]) && len(view.RecordSet[index][view.selectFields[q]]) >= 1)
@@ -603,7 +603,7 @@ package query
 // one row of the merged join result: column i of the output is input column fieldIndices[i], except that a NULL
 // join column takes the value of its counterpart from the other table (alternatives maps column index to column index)
 //@ func joinViews$2
-//@   property C03
+//@   property C03 C12 C13
 //@   safety
 //@   requires view != nil && 0 <= index && index < len(view.RecordSet) && fieldLen == len(fieldIndices) && poolWf(includeIndices) && alternatives != nil
 //@   requires forall(q, 0, len(fieldIndices), 0 <= fieldIndices[q] && fieldIndices[q] < len(view.RecordSet[index]) && len(view.RecordSet[index][fieldIndices[q]]) >= 1)
@@ -965,7 +965,7 @@ package query
 // C19: rectangular tables. LTSV rows lack the labels first seen on later lines; each row is padded to the header
 // length (worker closure run under GoroutineTaskManager.Run).
 //@ func loadViewFromLTSVFile$1
-//@   property C19
+//@   property C19 C12 C13
 //@   safety
 //@   requires 0 <= index && index < len(records)
 //@   ensures [row-as-long-as-header] result == nil && len(records[index]) == max(old(len(records[index])), len(header))
@@ -982,3 +982,39 @@ package query
 //@ func readRecordSet$1
 //@   property C19
 //@   safety
+
+// ---------------------------------------------------------------------------------------------
+// C04 / C12: GROUP BY assembles each bucket from the per-worker member lists in worker order: the bucket of a key
+// holds, column by column, exactly the rows every worker found for that key (worker 0's first, in row order).
+//@ spec func gsum(gl []map[string][]int, key string, j int) int reads elems(gl) map(map[string][]int)
+//@ axiom gsum_zero: forallv(gl, []map[string][]int, forallv(key, string, gsum(gl, key, 0) == 0))
+//@ axiom gsum_step: forallv(gl, []map[string][]int, forallv(key, string, forall(j, 0, MaxInt64, gsum(gl, key, j + 1) == gsum(gl, key, j) + ite(has(gl[j], key), len(gl[j][key]), 0))))
+//@ axiom gsum_nonneg: forallv(gl, []map[string][]int, forallv(key, string, forall(j, 0, MaxInt64, gsum(gl, key, j) >= 0)))
+//@ axiom gsum_monotone: forallv(gl, []map[string][]int, forallv(key, string, forall(a, 0, MaxInt64, forall(b, 0, MaxInt64, a <= b ==> gsum(gl, key, a) <= gsum(gl, key, b)))))
+//@ spec def memberOk(view *View, idx int) bool = 0 <= idx && idx < len(view.RecordSet) && len(view.RecordSet[idx]) >= len(view.Header) &&
+//@     forall(c, 0, len(view.Header), len(view.RecordSet[idx][c]) >= 1)
+
+//@ func (*View).group$2
+//@   property C04 C12 C13
+//@   safety
+//@   requires view != nil && 0 <= gIdx && gIdx < len(groupKeys) && gIdx < len(records) && groupKeyCnt != nil
+//@   requires groupKeyCnt[groupKeys[gIdx]] == gsum(groupsList, groupKeys[gIdx], len(groupsList)) && groupKeyCnt[groupKeys[gIdx]] >= 0
+//@   requires forall(j, 0, len(groupsList), has(groupsList[j], groupKeys[gIdx]) ==> forall(k, 0, len(groupsList[j][groupKeys[gIdx]]), memberOk(view, groupsList[j][groupKeys[gIdx]][k])))
+//@   ensures [bucket-shape] result == nil && len(records[gIdx]) == len(view.Header) && forall(c, 0, len(view.Header), len(records[gIdx][c]) == gsum(groupsList, groupKeys[gIdx], len(groupsList)))
+//@   ensures [bucket-holds-every-member-in-worker-order] forall(c, 0, len(view.Header), forall(j, 0, len(groupsList), has(groupsList[j], groupKeys[gIdx]) ==>
+//@       forall(k, 0, len(groupsList[j][groupKeys[gIdx]]), records[gIdx][c][gsum(groupsList, groupKeys[gIdx], j) + k] == view.RecordSet[groupsList[j][groupKeys[gIdx]][k]][c][0])))
+//@   loop 1 invariant 0 <= i && i <= len(view.Header) && len(record) == len(view.Header) && fresh(record)
+//@   loop 1 invariant forall(c, 0, i, len(record[c]) == gsum(groupsList, groupKeys[gIdx], len(groupsList)) && fresh(record[c]) && forall(j, 0, len(groupsList), has(groupsList[j], groupKeys[gIdx]) ==>
+//@       forall(k, 0, len(groupsList[j][groupKeys[gIdx]]), record[c][gsum(groupsList, groupKeys[gIdx], j) + k] == view.RecordSet[groupsList[j][groupKeys[gIdx]][k]][c][0])))
+//@   loop 1 modifies fresh
+//@   loop 2 invariant 0 <= $i && $i <= len(groupsList) && 0 <= i && i < len(view.Header) && pos == gsum(groupsList, groupKeys[gIdx], $i) && len(primaries) == gsum(groupsList, groupKeys[gIdx], len(groupsList)) && fresh(primaries)
+//@   loop 2 invariant forall(j, 0, $i, has(groupsList[j], groupKeys[gIdx]) ==>
+//@       forall(k, 0, len(groupsList[j][groupKeys[gIdx]]), primaries[gsum(groupsList, groupKeys[gIdx], j) + k] == view.RecordSet[groupsList[j][groupKeys[gIdx]][k]][i][0]))
+//@   loop 2 modifies primaries[*]
+//@   loop 3 invariant 0 <= $i && $i <= len(indices) && 0 <= rangeindex@1 && rangeindex@1 < len(groupsList) && has(groupsList[rangeindex@1], groupKeys[gIdx]) && indices == groupsList[rangeindex@1][groupKeys[gIdx]]
+//@   loop 3 invariant 0 <= i && i < len(view.Header) && pos == gsum(groupsList, groupKeys[gIdx], rangeindex@1) && len(primaries) == gsum(groupsList, groupKeys[gIdx], len(groupsList)) && fresh(primaries)
+//@   loop 3 invariant forall(j, 0, rangeindex@1, has(groupsList[j], groupKeys[gIdx]) ==>
+//@       forall(k, 0, len(groupsList[j][groupKeys[gIdx]]), primaries[gsum(groupsList, groupKeys[gIdx], j) + k] == view.RecordSet[groupsList[j][groupKeys[gIdx]][k]][i][0]))
+//@   loop 3 invariant forall(k, 0, $i, primaries[pos + k] == view.RecordSet[indices[k]][i][0])
+//@   loop 3 modifies primaries[*]
+//@   modifies records[*]
